@@ -26,8 +26,8 @@ import (
 
 // Draw is one recorded generator decision.
 type Draw struct {
-	L string `json:"l"`           // label
-	I *int64 `json:"i,omitempty"` // integer / bool value
+	L string  `json:"l"`           // label
+	I *int64  `json:"i,omitempty"` // integer / bool value
 	U *uint64 `json:"u,omitempty"`
 	B *string `json:"b,omitempty"` // hex bytes
 }
@@ -44,18 +44,19 @@ type Record struct {
 
 // G is the handle a property draws from.
 type G struct {
-	rt      *rapid.T
-	tb      testing.TB
-	id      string
-	test    string
-	rec     []Draw
-	replay  []Draw
-	pos     int
-	classes map[string]int
-	nontriv bool
-	ntKey   string
-	notes   []string
-	failed  bool
+	rt       *rapid.T
+	tb       testing.TB
+	id       string
+	test     string
+	rec      []Draw
+	replay   []Draw
+	pos      int
+	classes  map[string]int
+	nontriv  bool
+	ntKey    string
+	notes    []string
+	failed   bool
+	inserted int
 }
 
 type failure struct{ msg string }
@@ -73,12 +74,27 @@ func (g *G) next(label string) *Draw {
 	d := &g.replay[g.pos]
 	g.pos++
 	if d.L != label {
-		// The code under test behaves differently than when the record was taken
-		// (typically: the defect was repaired and a message is no longer sent), so
-		// the property asks for other draws from here on.  The rest of the record
-		// is dropped and the remaining draws take their minimal value.
-		g.notes = append(g.notes, fmt.Sprintf("replay diverged at draw %d (record has %q, property asked for %q): minimal values from here on", g.pos-1, d.L, label))
-		g.pos = len(g.replay) + 1
+		// The property asks for another draw than the record holds next: either the
+		// generator gained a draw since the record was taken, or the code under test
+		// behaves differently (typically: the defect was repaired and a message is no
+		// longer sent).  Resynchronise: if the asked label occurs within the next few
+		// entries the entries in between are dropped; otherwise the asked draw is
+		// treated as inserted (minimal value) and the record is not advanced.
+		for k := 1; k <= 12 && g.pos-1+k < len(g.replay); k++ {
+			if g.replay[g.pos-1+k].L == label {
+				g.notes = append(g.notes, fmt.Sprintf("replay resynchronised at draw %d: %d entries skipped to reach %q", g.pos-1, k, label))
+				g.pos = g.pos - 1 + k
+				d = &g.replay[g.pos]
+				g.pos++
+				g.rec = append(g.rec, *d)
+				return d
+			}
+		}
+		g.pos--
+		g.inserted++
+		if g.inserted > 2000 {
+			g.pos = len(g.replay) + 1 // hopelessly out of step: minimal values from here on
+		}
 		return nil
 	}
 	g.rec = append(g.rec, *d)
